@@ -179,6 +179,12 @@ var lockSites = []lockSite{
 		writes: map[string][]string{"repoManager.newVersion/= node.children": {"children"}},
 		choose: map[string]string{`branchname == "" || branchname == node.branch`: "then"},
 	},
+	// the in-memory supervoxel -> body mapping shared by all versions of a labelmap instance: every mutation of any
+	// version reads a supervoxel's per-version entries, extends them and stores them back
+	{name: "labelmap.setMapping", pkg: "datatype/labelmap", fn: "VCache.setMapping",
+		reads:  map[string][]string{"VCache.setMapping/<- lmap.fm[from]": {"fm"}},
+		writes: map[string][]string{"VCache.setMapping/= lmap.fm[from]": {"fm"}},
+	},
 	// merge appends its child to the children list of every parent (no uniqueness check)
 	{name: "datastore.merge", pkg: "datastore", fn: "repoManager.merge",
 		writes: map[string][]string{"repoManager.merge/= node.children": {"children"}},
@@ -311,6 +317,12 @@ func (w *lockWalker) stmt(s ast.Stmt, top bool) []lkEvent {
 		var evs []lkEvent
 		for _, r := range x.Rhs {
 			evs = append(evs, w.expr(r)...)
+			// `v := shared[k]`: a read of a shared in-memory location by indexing / selection, classified per site
+			if locs, ok := w.site.reads[w.fn+"/<- "+types.ExprString(r)]; ok {
+				for _, lc := range locs {
+					evs = append(evs, lkEvent{"Read", w.locName(lc), w.pos(r, "read of "+types.ExprString(r))})
+				}
+			}
 		}
 		for _, l := range x.Lhs {
 			if ie, ok := l.(*ast.IndexExpr); ok {
